@@ -107,13 +107,13 @@ Lemma visit_ext ch1 ch2 incl :
 Proof.
   intros H fuel; induction fuel as [|f IH]; intros n tn c s; simpl; auto.
   destruct (mapM_app _ (n_expressions n)) as [ex| | |]; simpl; auto.
-  destruct (cur_set c _ _) as [c2 s2].
   destruct (n_partial_scope n) as [[[pname kind] ins]|].
-  - destruct (mem_str pname (seen s2)); auto.
+  - destruct (cur_set c s _) as [c2 s2].
+    destruct (mem_str pname (seen s2)); auto.
     destruct (match kind with Isolated => _ | _ => _ end) as [pc s3].
     rewrite H. destruct (ch2 incl n) as [ch| | |]; simpl; auto.
     rewrite (fold_visit_ext _ (fun x pc s => visit ch2 incl f x pname pc (add_seen pname s))); auto.
-  - destruct (cur_set c2 s2 _) as [c3 s3].
+  - destruct (cur_set c s _) as [c3 s3].
     rewrite H. destruct (ch2 incl n) as [ch| | |]; simpl; auto.
     rewrite (fold_visit_ext _ (fun x c s => visit ch2 incl f x tn c s)); auto.
 Qed.
@@ -252,12 +252,12 @@ Section Cover.
     assert (M01 : incl (seen s) (seen s1)) by apply incl_refl.
     assert (N01 : forall p, In p (seen s1) -> ~ In p (seen s) -> False) by (intros; contradiction).
     inv_bind H. rename a into ex. rename Ha into Hex.
-    destruct (cur_set c s1 _) as [c2 s2] eqn:Ecs.
-    assert (E12 : seen s2 = seen s1).
-    { pose proof (seen_cur_set c s1 (fold_left (fun st i => stack_add (fst i) st) (n_template_scope n) (cur_stack c s1))) as E.
-      rewrite Ecs in E. exact E. }
     destruct (n_partial_scope n) as [[[pname kind] ins]|] eqn:Eps.
-    - destruct (mem_str pname (seen s2)) eqn:Em.
+    - destruct (cur_set c s1 _) as [c2 s2] eqn:Ecs.
+      assert (E12 : seen s2 = seen s1).
+      { pose proof (seen_cur_set c s1 (fold_left (fun st i => stack_add (fst i) st) (n_template_scope n) (cur_stack c s1))) as E.
+        rewrite Ecs in E. exact E. }
+      destruct (mem_str pname (seen s2)) eqn:Em.
       + inversion H; subst; clear H.
         assert (Hex' : incl ex CF).
         { eapply incl_tran; [|exact Hcs]. apply incl_appr, incl_appl, incl_refl. }
@@ -311,19 +311,23 @@ Section Cover.
           destruct (in_str_dec p (seen s3)) as [Hi|Hi].
           -- left. rewrite E23, E12 in Hi. eapply N01; eauto.
           -- destruct (Nc p Hp Hi) as [->|]; auto.
-    - destruct (cur_set c2 s2 _) as [c3 s3] eqn:Ecs3.
-      assert (E23 : seen s3 = seen s2).
-      { pose proof (seen_cur_set c2 s2 (cur_stack c2 s2 ++ [n_block_scope n])) as E.
+    - destruct (cur_set c s1 _) as [c3 s3] eqn:Ecs3.
+      assert (E13 : seen s3 = seen s1).
+      { pose proof (seen_cur_set c s1 (cur_stack c s1 ++ [n_block_scope n])) as E.
         rewrite Ecs3 in E. exact E. }
       inv_bind H. rename a into ch. inv_bind H. destruct a as [[c4 s4] cc].
       destruct (cur_set c4 s4 _) as [c5 s5] eqn:Ecs5.
       assert (E45 : seen s5 = seen s4).
       { pose proof (seen_cur_set c4 s4 (removelast (cur_stack c4 s4))) as E.
         rewrite Ecs5 in E. exact E. }
+      destruct (cur_set c5 s5 _) as [c6 s6] eqn:Ecs6.
+      assert (E56 : seen s6 = seen s5).
+      { pose proof (seen_cur_set c5 s5 (fold_left (fun st i => stack_add (fst i) st) (n_template_scope n) (cur_stack c5 s5))) as E.
+        rewrite Ecs6 in E. exact E. }
       inversion H; subst; clear H.
-      rewrite E45 in Hs.
+      rewrite E56, E45 in Hs.
       assert (Hcc : incl cc CF).
-      { eapply incl_tran; [|exact Hcs]. do 3 apply incl_appr. apply incl_refl. }
+      { eapply incl_tran; [|exact Hcs]. apply incl_appr, incl_appr, incl_appl, incl_refl. }
       assert (Hex' : incl ex CF).
       { eapply incl_tran; [|exact Hcs]. apply incl_appr, incl_appl, incl_refl. }
       destruct (fold_visit_cov _ _ _ (IH tn) _ _ _ _ _ _ Ha0 Hcc Hs) as (Fc & Mc & Nc).
@@ -332,10 +336,10 @@ Section Cover.
       + eapply NCov_plain; eauto.
         * eapply incl_tran; [|exact Hcs]. apply incl_appl, incl_refl.
         * eapply exprs_cov; eauto.
-      + rewrite E45. eapply incl_tran; [exact M01|]. rewrite <- E12, <- E23. exact Mc.
-      + intros p Hp Hn. rewrite E45 in Hp.
+      + rewrite E56, E45. eapply incl_tran; [exact M01|]. rewrite <- E13. exact Mc.
+      + intros p Hp Hn. rewrite E56, E45 in Hp.
         destruct (in_str_dec p (seen s3)) as [Hi|Hi].
-        * left. rewrite E23, E12 in Hi. eapply N01; eauto.
+        * left. rewrite E13 in Hi. eapply N01; eauto.
         * apply Nc; auto.
   Qed.
 End Cover.
@@ -1122,6 +1126,8 @@ Section Sound.
         simpl. right. apply in_or_app; right. apply in_or_app; right. exact Hc. }
       apply sound_seq; [upd_ok|]. apply sound_seq; [|upd_ok].
       apply sound_repeatM. apply Hrn; simpl; auto.
+    - (* WLoopBlock *)
+      apply sound_forM. intros k Hk. apply Hrn; simpl; auto.
   Qed.
 
   Lemma interp_sound : forall fuel,
@@ -1341,9 +1347,10 @@ Section Globals.
             + inv_bind Ha. inv_bind Ha. inversion Ha; subst.
               apply in_app_or in Hi as [Hi|Hi]; [eapply IHf; eauto|eapply IHl; eauto]. }
         intros; eapply Hef; eauto. }
-    destruct (cur_set c s1 _) as [c2 s2] eqn:Ecs.
-    assert (Hs2 : scopes_ok c2 s2).
-    { eapply cur_set_ok; [exact Hs1| |exact Ecs].
+    assert (Hadd : forall c0 s0 c2 s2, scopes_ok c0 s0 ->
+              cur_set c0 s0 (fold_left (fun st (i : ident) => stack_add (fst i) st) (n_template_scope n) (cur_stack c0 s0)) = (c2, s2) ->
+              scopes_ok c2 s2).
+    { intros c0 s0 c2 s2 H0 Ecs. eapply cur_set_ok; [exact H0| |exact Ecs].
       intros x Hx. apply fold_stack_add_scope in Hx as [Hx|Hx].
       - exists tn, n. split; auto. left; auto.
       - eapply cur_stack_ok; eauto. }
@@ -1353,7 +1360,9 @@ Section Globals.
     { apply GP_no_var. intros v Hv. unfold node_tags in Hv.
       destruct (is_wrapper n); [contradiction|]. destruct (n_token n); simpl in Hv; intuition discriminate. }
     destruct (n_partial_scope n) as [[[pname kind] ins]|] eqn:Eps.
-    - destruct (mem_str pname (seen s2)).
+    - destruct (cur_set c s1 _) as [c2 s2] eqn:Ecs.
+      assert (Hs2 : scopes_ok c2 s2) by (eapply Hadd; eauto).
+      destruct (mem_str pname (seen s2)).
       + inversion H; subst. split; auto. repeat apply GP_app; auto.
       + destruct (match kind with Isolated => _ | _ => _ end) as [pc s3] eqn:Ek.
         assert (Hins : forall x, in_scope x [ins] = true -> Bound x).
@@ -1380,20 +1389,22 @@ Section Globals.
         * destruct Hs2 as (R2 & C2). destruct S4 as (R4 & C4). split; auto.
           destruct pc'; auto. simpl. intros x Hx. apply in_scope_removelast in Hx. auto.
         * repeat apply GP_app; auto.
-    - destruct (cur_set c2 s2 _) as [c3 s3] eqn:Ecs3.
+    - destruct (cur_set c s1 _) as [c3 s3] eqn:Ecs3.
       assert (Hs3 : scopes_ok c3 s3).
-      { eapply cur_set_ok; [exact Hs2| |exact Ecs3]. intros x Hx.
+      { eapply cur_set_ok; [exact Hs1| |exact Ecs3]. intros x Hx.
         apply in_scope_app in Hx as [Hx|Hx]; [eapply cur_stack_ok; eauto|].
         exists tn, n. split; auto. right; left. apply mem_str_In; auto. }
       inv_bind H. rename a into ch. inv_bind H. destruct a as [[c4 s4] cc].
       destruct (cur_set c4 s4 _) as [c5 s5] eqn:Ecs5.
+      destruct (cur_set c5 s5 _) as [c6 s6] eqn:Ecs6.
       inversion H; subst; clear H.
       rewrite (n_children_plain _ _ Eps) in Ha. inversion Ha; subst ch; clear Ha.
       destruct (fold_visit_GP (fun x c s => visit (n_children get) true f x tn c s) (n_kids n)) with
         (c := c3) (s := s3) (c' := c4) (s' := s4) (k := cc) as (S4 & G4); auto.
       { intros x c0 s0 c0' s0' k0 Hx Hv Hs0. eapply IH; [exact Hv| |auto]. eapply R_kid; eauto. }
       split.
-      + eapply cur_set_ok; [exact S4| |exact Ecs5]. intros x Hx.
+      + eapply Hadd; [|exact Ecs6].
+        eapply cur_set_ok; [exact S4| |exact Ecs5]. intros x Hx.
         apply in_scope_removelast in Hx. eapply cur_stack_ok; eauto.
       + repeat apply GP_app; auto.
   Qed.
